@@ -373,20 +373,32 @@ func (e *tallEngine) runCase(c *TallCase, f *Findings, trace bool) *CaseResult {
 		T := mp.TotalRows
 		var cls, det string
 		nCached := 0
+		// (entries are collected and sorted first: the verdict must not depend on
+		// the iteration order of the library's maps)
+		type centry struct {
+			h   H
+			pos uint64
+		}
+		var ces []centry
 		guard(func() error {
 			return mp.CachedLeaves.ForEach(func(h u.Hash, pos uint64) error {
-				nCached++
-				ro, ok := L.LeafAt[h]
-				switch {
-				case cls != "":
-				case !ok || !fheld[h]:
-					cls, det = "forest-cached-unexpected", fmt.Sprintf("cache holds %x.. (pos %d) which is not a remembered live leaf", h[:4], pos)
-				case ro.Pos(T) != pos:
-					cls, det = "forest-cached-wrong-pos", fmt.Sprintf("cached leaf %x.. at %d, true position %d", h[:4], pos, ro.Pos(T))
-				}
+				ces = append(ces, centry{h, pos})
 				return nil
 			})
 		})
+		sort.Slice(ces, func(i, j int) bool { return lessH(ces[i].h, ces[j].h) })
+		for _, ce := range ces {
+			nCached++
+			h, pos := ce.h, ce.pos
+			ro, ok := L.LeafAt[h]
+			switch {
+			case cls != "":
+			case !ok || !fheld[h]:
+				cls, det = "forest-cached-unexpected", fmt.Sprintf("cache holds %x.. (pos %d) which is not a remembered live leaf", h[:4], pos)
+			case ro.Pos(T) != pos:
+				cls, det = "forest-cached-wrong-pos", fmt.Sprintf("cached leaf %x.. at %d, true position %d", h[:4], pos, ro.Pos(T))
+			}
+		}
 		if cls == "" && nCached != len(fheld) {
 			cls, det = "forest-cached-count", fmt.Sprintf("cache holds %d leaves, %d are remembered", nCached, len(fheld))
 		}
@@ -410,18 +422,28 @@ func (e *tallEngine) runCase(c *TallCase, f *Findings, trace bool) *CaseResult {
 			for ro, h := range L.Nodes {
 				byPos[ro.Pos(T)] = h
 			}
+			type nentry struct {
+				pos uint64
+				h   H
+			}
+			var nes []nentry
 			guard(func() error {
 				return mp.Nodes.ForEach(func(pos uint64, l u.Leaf) error {
-					switch {
-					case cls != "":
-					case !allowed[pos]:
-						cls, det = "forest-stored-unneeded", fmt.Sprintf("stores position %d which no remembered leaf needs", pos)
-					case l.Hash != byPos[pos]:
-						cls, det = "forest-stored-wrong-hash", fmt.Sprintf("position %d holds %x.., the node there has %x..", pos, l.Hash[:4], func() []byte { b := byPos[pos]; return b[:4] }())
-					}
+					nes = append(nes, nentry{pos, l.Hash})
 					return nil
 				})
 			})
+			sort.Slice(nes, func(i, j int) bool { return nes[i].pos < nes[j].pos })
+			for _, ne := range nes {
+				want := byPos[ne.pos]
+				switch {
+				case cls != "":
+				case !allowed[ne.pos]:
+					cls, det = "forest-stored-unneeded", fmt.Sprintf("stores position %d which no remembered leaf needs", ne.pos)
+				case ne.h != want:
+					cls, det = "forest-stored-wrong-hash", fmt.Sprintf("position %d holds %x.., the node there has %x..", ne.pos, ne.h[:4], want[:4])
+				}
+			}
 		}
 		if cls != "" {
 			violate("C09", cls, fmt.Sprintf("%s (N=%d): %s", where, cur.N, det))
